@@ -85,3 +85,151 @@ func StringsTrim(s, cutset string) string {
 	}
 	return s[lo:hi]
 }
+
+// ---- errors ----
+
+func ErrorsUnwrap(err error) error {
+	u, ok := err.(interface{ Unwrap() error })
+	if !ok {
+		return nil
+	}
+	return u.Unwrap()
+}
+
+func ErrorsIs(err, target error) bool {
+	for steps := 0; steps < 8; steps++ {
+		if err == target {
+			return true
+		}
+		if err == nil {
+			return false
+		}
+		if x, ok := err.(interface{ Is(error) bool }); ok && x.Is(target) {
+			return true
+		}
+		switch x := err.(type) {
+		case interface{ Unwrap() error }:
+			err = x.Unwrap()
+		case interface{ Unwrap() []error }:
+			for _, e := range x.Unwrap() {
+				if ErrorsIs(e, target) {
+					return true
+				}
+			}
+			return false
+		default:
+			return false
+		}
+	}
+	return false
+}
+
+// ---- internal/bytealg (package bytes and strings are built on these) ----
+
+func BytealgIndexByte(b []byte, c byte) int {
+	for i := 0; i < len(b); i++ {
+		if b[i] == c {
+			return i
+		}
+	}
+	return -1
+}
+
+func BytealgIndexByteString(s string, c byte) int {
+	for i := 0; i < len(s); i++ {
+		if s[i] == c {
+			return i
+		}
+	}
+	return -1
+}
+
+func BytealgLastIndexByte(b []byte, c byte) int {
+	for i := len(b) - 1; i >= 0; i-- {
+		if b[i] == c {
+			return i
+		}
+	}
+	return -1
+}
+
+func BytealgLastIndexByteString(s string, c byte) int {
+	for i := len(s) - 1; i >= 0; i-- {
+		if s[i] == c {
+			return i
+		}
+	}
+	return -1
+}
+
+func BytealgCount(b []byte, c byte) int {
+	n := 0
+	for i := 0; i < len(b); i++ {
+		if b[i] == c {
+			n++
+		}
+	}
+	return n
+}
+
+func BytealgCountString(s string, c byte) int {
+	n := 0
+	for i := 0; i < len(s); i++ {
+		if s[i] == c {
+			n++
+		}
+	}
+	return n
+}
+
+func BytealgEqual(a, b []byte) bool {
+	if len(a) != len(b) {
+		return false
+	}
+	for i := range a {
+		if a[i] != b[i] {
+			return false
+		}
+	}
+	return true
+}
+
+func BytealgCompare(a, b []byte) int {
+	n := len(a)
+	if len(b) < n {
+		n = len(b)
+	}
+	for i := 0; i < n; i++ {
+		if a[i] < b[i] {
+			return -1
+		}
+		if a[i] > b[i] {
+			return 1
+		}
+	}
+	if len(a) < len(b) {
+		return -1
+	}
+	if len(a) > len(b) {
+		return 1
+	}
+	return 0
+}
+
+func BytealgIndex(a, b []byte) int {
+	for i := 0; i+len(b) <= len(a); i++ {
+		if BytealgEqual(a[i:i+len(b)], b) {
+			return i
+		}
+	}
+	return -1
+}
+
+func BytealgIndexString(a, b string) int {
+	for i := 0; i+len(b) <= len(a); i++ {
+		if hasPrefixAt(a, i, b) {
+			return i
+		}
+	}
+	return -1
+}
